@@ -263,6 +263,7 @@ func (x *X) unop(fr *Frame, st *State, in *ssa.UnOp) SV {
 		if p.kind != pkLocal {
 			v = x.vc.define("ld", v)
 			x.assumeWF(st, v, in.Type())
+			x.embeddedNonNil(p, v)
 		}
 		return v
 	case token.NOT:
@@ -777,4 +778,26 @@ func (x *X) ctxDoneKey() string {
 		x.vc.decl("(declare-const ctxDone0 Bool)")
 		return T(SBool, "ctxDone0")
 	})
+}
+
+// embeddedNonNil: an embedded pointer field of a struct of another module
+// package (AST node parts such as StringNode.quotedString) is never nil in
+// values built by that package's constructors.
+func (x *X) embeddedNonNil(p *PtrV, v Term) {
+	if p.kind != pkObj || len(p.path) != 1 || x.top == nil || x.top.Pkg == nil {
+		return
+	}
+	n, ok := p.typ.(*types.Named)
+	if !ok || !x.enc.inModule(n) || n.Obj().Pkg() == x.top.Pkg.Pkg {
+		return
+	}
+	f := n.Underlying().(*types.Struct).Field(p.path[0])
+	if !f.Embedded() {
+		return
+	}
+	if _, isPtr := f.Type().Underlying().(*types.Pointer); !isPtr {
+		return
+	}
+	x.vc.assume(mkImplies(mkNot(mkEq(p.ref, intLit(0))), mkNot(mkEq(v, intLit(0)))))
+	x.enc.assumption("wfAST: embedded pointer parts of " + n.Obj().Pkg().Name() + " nodes (" + n.Obj().Name() + "." + f.Name() + ") are non-nil (set by the constructors)")
 }
